@@ -304,8 +304,9 @@ pub fn bases(seed: u64, thorough: bool) -> Vec<(String, Vec<u8>)> {
     v.push(("builder:trailing-garbage".into(), b(Spec { entries: vec![e(b"t", 8)], comment: b"tc".to_vec(), trailing: vec![0xee; 300], ..Default::default() })));
     v.push(("builder:reordered-cd+gaps".into(), b(Spec { entries: vec![e(b"g1", 0), ESpec { gap_before: 9, ..e(b"g2", 8) }], cd_order: Some(vec![1, 0]), gap_before_cd: 4, ..Default::default() })));
     v.push(("builder:method-14".into(), b(Spec { entries: vec![ESpec { raw_payload: Some(b"opaque".to_vec()), content: vec![], ..e(b"lzma", 14) }, e(b"ok", 8)], ..Default::default() })));
-    if thorough {
-        for n in [65535usize, 65536, 70000] {
+    {
+        // more than 65535 entries (ZIP64 end records become mandatory at 65536): in both tiers
+        for n in if thorough { vec![65535usize, 65536, 70000] } else { vec![65535usize, 65536] } {
             let mut calls = vec![];
             for i in 0..n {
                 calls.push(Call::StartFile { name: format!("n{i}"), opts: FOpts::m(0) });
@@ -380,7 +381,7 @@ pub fn run(args: &Args) -> i32 {
          ALL histories of up to {rounds} rounds from {} base archives (writer-made: empty, every method, comment+dir+symlink, extra data+large_file, raw copy{}; builder-made: 1000-byte prefix, forced ZIP64 end records (with and without entries), forced ZIP64 fields, data descriptors, DOS/NTFS made-by, comments+extras+CP437 name, trailing garbage, reordered directory+gaps, method 14; CPython-made deflate/bzip2 with force_zip64). \
          After every round the crate reader and the independent parser must list the base entries (as the independent parser read them from the base) followed by everything appended so far, with names, contents, methods, DOS words, modes and the archive comment. distinct_nontrivial = distinct archive byte strings reached (hash set).",
         bs.len(),
-        if thorough { "; 65535/65536/70000 entries" } else { "" }
+        if thorough { "; 65535/65536/70000 entries (reduced transition set: nothing / stored file / directory x keep / longer comment x finish / drop, two rounds)" } else { "; 65535/65536 entries (reduced transition set: nothing / stored file / directory x keep / longer comment x finish / drop, two rounds)" }
     );
     ctx.assume("ground truth for a base is what reference::zipparse reads from it (cross-checked with the crate reader before the first round)");
     ctx.uncovered("per-file comments and extra fields of old entries surviving (not in the statement); encrypted bases (exempt); a sparse > 4 GiB base");
@@ -405,7 +406,8 @@ pub fn run(args: &Args) -> i32 {
             let (bi, hist, state) = &states_r[si];
             let (op, cm, fin) = (k / 6, (k / 2) % 3, k % 2 == 0);
             let big = state.bytes.len() > 1 << 20;
-            if big && !(cm == 0 && fin && (op == 0 || op == 1)) {
+            // big bases (> 1 MiB, i.e. the 65535+-entry ones): reduced transition set, two rounds
+            if big && !((cm == 0 || cm == 2) && (op == 0 || op == 1 || op == 3)) {
                 return;
             }
             let mut h = hist.clone();
@@ -415,7 +417,7 @@ pub fn run(args: &Args) -> i32 {
             let hh = h.clone();
             let case = move || json!({"base_label": label, "base": if base_bytes.len() <= 4096 { hex(base_bytes) } else { String::new() }, "history": hh.iter().map(|x| json!([x.0, x.1, x.2])).collect::<Vec<_>>()});
             if let Some(n) = step(state, op, cm, fin, r, seed, src_r, st, &case, ((r as u64) << 40) | t, label) {
-                if r + 1 < rounds && !big {
+                if r + 1 < rounds && (!big || r + 1 < 2) {
                     next.lock().unwrap().push((*bi, h, n));
                 }
             }
